@@ -58,12 +58,13 @@ Fixpoint run_iter_ops (p : profile) (m : mem) (r : dref) (pool : list iter_st) (
   | AL [AN 1; AN i] :: rest =>
       match nth_error pool (N.to_nat i) with
       | Some (ItLive nxt) =>
-          let x := tagiter_next p HTagH m (tags_b r) (tags_len r) nxt in
+          (* a panic is caught by the caller: the iterator lives on with the offset next() left behind *)
+          let '(x, n') := tagiter_step p HTagH m (tags_b r) (tags_len r) nxt in
           let upd st := (firstn (N.to_nat i) pool ++ [st] ++ skipn (S (N.to_nat i)) pool)%list in
           match x with
-          | Val (Some t, n') => line "next" ("VAL some " ++ sTagLine m t) :: run_iter_ops p m r (upd (ItLive n')) rest
-          | Val (None, n') => line "next" "VAL none" :: run_iter_ops p m r (upd (ItLive n')) rest
-          | _ => line "next" (sRes (fun _ => "") x) :: run_iter_ops p m r (upd ItDead) rest
+          | Val (Some t) => line "next" ("VAL some " ++ sTagLine m t) :: run_iter_ops p m r (upd (ItLive n')) rest
+          | Val None => line "next" "VAL none" :: run_iter_ops p m r (upd (ItLive n')) rest
+          | _ => line "next" (sRes (fun _ => "") x) :: run_iter_ops p m r (upd (ItLive n')) rest
           end
       | _ => line "next" "skip" :: run_iter_ops p m r pool rest
       end
